@@ -135,6 +135,27 @@ def asmInstr (q : Quirks) (c : ACfg) (pc : Nat) (m : Mnem) (red : Reduced) (sfx 
       | none => .error .badBranch
     else .ok (r.code :: ((le4 val).drop beg).take (end_ - beg))
 
+/-- `push_strings` (assembly.rs:537-587), sign step: `signed && len > 0 && v[0] < b'\''` sets the high bit of
+every byte of the node text (delimiters included) -/
+def signStep (text : List Nat) : List Nat :=
+  match text with
+  | d :: _ => if d < 39 then text.map (fun x => x ||| 0x80) else text
+  | [] => text
+
+/-- `push_strings`, rest of the `dstring` arm (no length prefix, no reversal): the two delimiters must agree;
+`dci` flips the high bit of the last character; the delimiters are dropped -/
+def strCore (v : List Nat) (dci : Bool) : Except Unasm (List Nat) :=
+  let len := v.length
+  if len < 2 || v.head? != v.getLast? then .error .syntax
+  else if len > 2 then
+    let v := if dci then v.set (len - 2) ((v.getD (len - 2) 0) ^^^ 0x80) else v
+    .ok ((v.drop 1).take (len - 2))
+  else .ok []
+
+/-- `push_strings` for one `dstring` child with `signed = true`; `text` is the node text *including both
+delimiters* -/
+def pushStrings (text : List Nat) (dci : Bool) : Except Unasm (List Nat) := strCore (signStep text) dci
+
 def snippetIsImm (md : Mode) (wide : Bool) : Bool := wide || (snippet md).head? == some 35
 
 /-- object bytes of one structured line when the assembler's program counter is `pc` -/
@@ -156,13 +177,17 @@ def lineBytes (q : Quirks) (c : ACfg) (pc : Nat) : Line → Except Unasm (List N
   | .hex _ reps bytes => if reps > 1 then .error .cannotAssemble else .ok bytes
   | .ds _ n v => if n > 0xffff then .error .outOfRange else .ok (List.replicate n (v % 256))
   | .asc _ neg s zero =>
-    .ok ((s.map (fun ch => if neg then ch % 128 + 128 else ch)) ++ (if zero then [0] else []))
-  | .dci _ neg s =>
-    let v := s.map (fun ch => if neg then ch % 128 + 128 else ch)
-    match v.reverse with
-    | last :: front => .ok (front.reverse ++ [Nat.xor last 0x80])
-    | [] => .ok []
+    -- `arg_asc`: children `dstring` [`hex_data` "00"]; text of the dstring as `push_string` wrote it
+    match pushStrings ([delimOf neg s] ++ s ++ [delimOf neg s]) false with
+    | .ok b => .ok (b ++ (if zero then [0] else []))
+    | .error e => .error e
+  | .dci _ neg s => pushStrings ([delimOf neg s] ++ s ++ [delimOf neg s]) true
   | .dfb _ v => .ok [v % 256]
+
+/-- what Merlin's `LUP r` / body / `--^` stands for: the body `r` times.  The spot assembler does not implement
+`LUP` (it answers `CannotAssemble`); this reading is used to state that a refused pattern line still stands for
+exactly its span. -/
+def lupBytes (reps : Nat) (body : List Nat) : List Nat := (List.replicate reps body).flatten
 
 def isMov : Line → Bool
   | .instr _ _ _ _ _ _ (.mov ..) => true
